@@ -200,7 +200,8 @@ class Interp:
             for s in states:
                 a, b = sem.cond(s, st.test)
                 out.normal |= set(a)
-                out.exc |= set(b)
+                if getattr(sem, "assert_may_fail", True):
+                    out.exc |= set(b)
             return out
         if isinstance(st, ast.Match):
             raise Unsupported("match statement", st)
